@@ -218,8 +218,9 @@ func (self *visitorUserNode) OnBool(v bool) error {
 		return newError(meta.ErrDismatchType, "param isn't boolType", nil)
 	}
 
-	// packed list no need to write tag
-	if !fieldDesc.Type().IsList() {
+	// elements of a packed list carry no tag (the list header was written by OnArrayBegin);
+	// elements of a list declared [packed=false] are ordinary tagged records
+	if !fieldDesc.Type().IsPacked() {
 		if err = self.p.AppendTagByKind(fieldDesc.Number(), fieldDesc.Kind()); err != nil {
 			return err
 		}
@@ -294,8 +295,9 @@ func (self *visitorUserNode) OnInt64(v int64, n json.Number) error {
 		return err
 	}
 
-	// packed list no need to write tag
-	if !fieldDesc.Type().IsList() {
+	// elements of a packed list carry no tag (the list header was written by OnArrayBegin);
+	// elements of a list declared [packed=false] are ordinary tagged records
+	if !fieldDesc.Type().IsPacked() {
 		if err = self.p.AppendTagByKind(fieldDesc.Number(), fieldDesc.Kind()); err != nil {
 			return err
 		}
@@ -392,8 +394,9 @@ func (self *visitorUserNode) OnFloat64(v float64, n json.Number) error {
 		return err
 	}
 
-	// packed list no need to write tag
-	if !fieldDesc.Type().IsList() {
+	// elements of a packed list carry no tag (the list header was written by OnArrayBegin);
+	// elements of a list declared [packed=false] are ordinary tagged records
+	if !fieldDesc.Type().IsPacked() {
 		if err = self.p.AppendTagByKind(fieldDesc.Number(), fieldDesc.Kind()); err != nil {
 			return err
 		}
